@@ -76,6 +76,7 @@ class Recorder:
         self.env_counter = 0
         self.cur_job: Optional[tuple] = None
         self.collapsed: dict[str, str] = {}  # twin job id -> id of the job it collapsed into
+        self.collapsed_under_settled_parent = 0
 
     def rec(self, job) -> JobRec:
         r = self.jobs.get(job.id)
@@ -229,6 +230,9 @@ def recording(w: World, rec: Recorder):
     def mk_collapse(orig):
         def collapse(self, other_job, *a, **k):
             rec.collapsed[self.id] = other_job.id
+            pj = getattr(self, "parent_job", None)
+            if pj is not None and getattr(pj, "result_promise", 1) is None:
+                rec.collapsed_under_settled_parent += 1
             w.event("collapse", self.id[:8], other_job.id[:8])
             return orig(self, other_job, *a, **k)
         return collapse
